@@ -60,7 +60,15 @@ func TestLostUpdateWithoutMutex(t *testing.T) {
 		for i := 0; i < 2; i++ {
 			// NB: the first block of a goroutine is taken eagerly (it must not read memory that other
 			// goroutines write); the racy read therefore comes after a scheduling point.
-			vs.Go(func() { defer wg.Done(); vs.Yield(); v := n; vs.Yield(); n = v + 1 })
+			// and the value read is folded into the history with vs.Note (pruning proviso).
+			vs.Go(func() {
+				defer wg.Done()
+				vs.Yield()
+				v := n
+				vs.Note(v)
+				vs.Yield()
+				n = v + 1
+			})
 		}
 		vs.Go(func() { wg.Wait(); log(fmt.Sprint(n)) })
 	})
